@@ -272,7 +272,8 @@ Proof.
 Qed.
 
 (* every forwarded key decodes to exactly its list of values, whatever bytes they contain *)
-Lemma values_roundtrip q : nodup_keys q = true -> fwd_ok q (values_encode q).
+Lemma values_roundtrip q : nodup_keys q = true ->
+  exists pairs, parse_query (values_encode q) = (pairs, true) /\ forall k, pvals k pairs = vals k q.
 Proof.
   intros H. exists (pairs_of (sort_keys q)). split; [apply values_roundtrip_pairs|].
   intros k. rewrite pvals_pairs_of. apply vals_sort. exact H.
@@ -614,9 +615,22 @@ Proof. induction l as [|x r IH]; simpl; [reflexivity|]. rewrite str_eqb_refl, IH
 Lemma list_eqb_str_eq a b : list_eqb str_eqb a b = true -> a = b.
 Proof. apply list_eqb_eq. intros x y. apply str_eqb_eq. Qed.
 
+Lemma enc_pair_nonempty kv : str_eqb (enc_pair kv) "" = false.
+Proof. unfold enc_pair. destruct (query_escape (fst kv)); reflexivity. Qed.
+
+(* Values.Encode never writes an empty pair *)
+Lemma encode_no_empty_piece q : no_empty_piece (values_encode q) = true.
+Proof.
+  unfold no_empty_piece, values_encode.
+  destruct (pairs_of (sort_keys q)) as [|x r] eqn:E; [reflexivity|].
+  rewrite split_join_amp by discriminate. apply orb_true_iff. right.
+  apply forallb_forall. intros p Hin. apply in_map_iff in Hin. destruct Hin as [kv [Hp _]].
+  subst p. rewrite enc_pair_nonempty. reflexivity.
+Qed.
+
 Lemma fwd_ok_b_encode q : nodup_keys q = true -> fwd_ok_b q (values_encode q) = true.
 Proof.
-  intros H. unfold fwd_ok_b. rewrite values_roundtrip_pairs. simpl.
+  intros H. unfold fwd_ok_b. rewrite encode_no_empty_piece. rewrite values_roundtrip_pairs. simpl.
   apply forallb_forall. intros k _.
   rewrite pvals_pairs_of, (vals_sort _ _ H). apply list_eqb_str_refl.
 Qed.
@@ -640,7 +654,9 @@ Qed.
 Lemma fwd_ok_b_sound q enc : fwd_ok_b q enc = true -> fwd_ok q enc.
 Proof.
   unfold fwd_ok_b, fwd_ok. destruct (parse_query enc) as [pairs ok].
-  intros H. apply andb_true_iff in H. destruct H as [H1 H2]. subst ok.
+  intros H. apply andb_true_iff in H. destruct H as [H0 H].
+  apply andb_true_iff in H. destruct H as [H1 H2]. subst ok.
+  split; [exact H0|].
   exists pairs. split; [reflexivity|]. intros k.
   rewrite forallb_forall in H2.
   destruct (in_dec_str k (map fst q ++ map fst pairs)%list) as [Hin|Hn].
